@@ -25,8 +25,8 @@ FILES = {
     "src/djinterop/engine/v2/overview_waveform_data_blob.cpp": ["C02", "C03", "C04", "C05"],
     "src/djinterop/engine/v2/track_data_blob.cpp": ["C02", "C03", "C04", "C05"],
     "src/djinterop/engine/v1/performance_data_format.cpp": ["C02", "C03", "C05", "C01"],
-    "src/djinterop/engine/v2/track_impl.cpp": ["C01", "C06", "C04", "C15", "C14", "C08"],
-    "src/djinterop/engine/v1/engine_track_impl.cpp": ["C01", "C06", "C15", "C14", "C08"],
+    "src/djinterop/engine/v2/track_impl.cpp": ["C01", "C06", "C02", "C04", "C15", "C14", "C08", "C16"],
+    "src/djinterop/engine/v1/engine_track_impl.cpp": ["C01", "C06", "C02", "C15", "C14", "C08", "C16"],
     "src/djinterop/engine/v2/convert_track.hpp": ["C01", "C06"],
     "src/djinterop/engine/v2/convert_hot_cues.hpp": ["C01", "C06", "C15"],
     "src/djinterop/engine/v2/convert_loops.hpp": ["C01", "C06", "C15"],
@@ -269,6 +269,38 @@ def cmd_phase2(a):
     cmd_report(a)
 
 
+def cmd_recheck(a):
+    """run further checks against mutants recorded as missed: --ids M0001,M0002 (default: all missed) --checks C02,C11 (default: the rest of the file's list)"""
+    p2 = load("phase2.jsonl")
+    ids = set(a.ids.split(",")) if a.ids else {c["id"] for c in p2 if c["verdict"] in ("missed", "check_error")}
+    wt = os.path.join(ROOT, "p2-wt")
+    bd = os.path.join(ROOT, "p2-build")
+    ensure_wt(wt, build=False)
+    for c in p2:
+        if c["id"] not in ids:
+            continue
+        already = {r.split(":")[0] for r in c.get("runs", [])}
+        checks = a.checks.split(",") if a.checks else [x for x in FILES[c["file"]] if x not in already]
+        sh("git reset -q --hard", cwd=wt)
+        if not apply_mut(wt, c):
+            continue
+        r = {"id": c["id"], "file": c["file"], "line": c["line"], "op": c["op"], "before": c["before"], "after": c["after"], "verdict": "missed", "runs": []}
+        for chk in checks:
+            env = dict(os.environ, REPO=wt, VERIF_REPO=wt, BUILD=bd, VERIF_NO_EVIDENCE="1")
+            rc, out = sh("timeout 2400 bin/vx check %s --tier quick" % chk, cwd="/verif", timeout=2500, env=env)
+            nv = len([l for l in out.split("\n") if l.startswith("VIOLATION")])
+            r["runs"].append("%s:exit=%d:viol=%d" % (chk, rc, nv))
+            if rc == 1 and nv > 0:
+                r["verdict"] = "caught"
+                r["by"] = chk
+                r["first_violation"] = next((l2 for l2 in out.split("\n") if l2.startswith("  key=")), "")[:300]
+                break
+        with open(os.path.join(ROOT, "recheck.jsonl"), "a") as fh:
+            fh.write(json.dumps(r) + "\n")
+        print(r["id"], r["file"], r["line"], r["verdict"], r.get("by", ""), r["runs"], flush=True)
+    sh("git reset -q --hard", cwd=wt)
+
+
 def cmd_report(a):
     p1 = load("phase1.jsonl")
     p2 = load("phase2.jsonl")
@@ -306,5 +338,7 @@ if __name__ == "__main__":
     ap.add_argument("--jobs", type=int, default=6)
     ap.add_argument("--maxchecks", type=int, default=3)
     ap.add_argument("--shard", default="0/1")
+    ap.add_argument("--ids", default="")
+    ap.add_argument("--checks", default="")
     a = ap.parse_args()
-    {"gen": cmd_gen, "phase1": cmd_phase1, "phase2": cmd_phase2, "report": cmd_report, "clean": cmd_clean}[a.cmd](a)
+    {"gen": cmd_gen, "phase1": cmd_phase1, "phase2": cmd_phase2, "report": cmd_report, "recheck": cmd_recheck, "clean": cmd_clean}[a.cmd](a)
